@@ -430,3 +430,6 @@ def decide_inconclusive(obs, results, cases):
     if obs.get('bound_attained', 0) == 0:
         return 'no run reached the stated bound: the extreme state was never observed'
     return None
+
+
+RULE = RULE + '; Buffer constructed directly with an external stop event'
